@@ -220,7 +220,7 @@ COVER = set()  # (body key, basic block) executed by any run of this process (C0
 
 
 class Frame:
-    __slots__ = ("key", "body", "locals", "visits", "prev_bb")
+    __slots__ = ("key", "body", "locals", "visits", "prev_bb", "substs")
 
     def __init__(self, key, body):
         self.key = key
@@ -228,6 +228,7 @@ class Frame:
         self.locals = [Box_(UNINIT, "_%d" % i) for i in range(len(body["locals"]))]
         self.visits = {}
         self.prev_bb = None
+        self.substs = {}
 
 
 class Interp:
@@ -240,6 +241,7 @@ class Interp:
         self.max_depth = max_depth
         self.loop_limit = loop_limit
         self.havoc = havoc
+        self.frames = []
         self.stack = []  # call stack of keys (for reports)
         self.guards = []  # live RefCell guards (borrow typestate)
         self.site = None
@@ -701,6 +703,10 @@ class Interp:
             return self.const_agg(fr, ty, v)
         if "static" in v:
             return Ref(self.static_box(v["static"]), ())
+        if "opaque" in v:
+            m = re.fullmatch(r"Ty\((\w+), (\w+)/#\d+\)", str(v["opaque"]).strip())
+            if m:
+                return self.const_param(fr, m.group(2), m.group(1))
         if "opaque" in v or "raw" in v or "ptr" in v:
             return Opaque("const:" + ty, text=str(v)[:200])
         raise self.unanalysable("constant %r" % (c,))
@@ -842,8 +848,8 @@ class Interp:
         raise self.unanalysable("rvalue %r" % (rv.get("text", k),))
 
     # ---------------- control ----------------
-    def call(self, key, args, nostub=False):
-        """Interpret local body `key` with argument values."""
+    def call(self, key, args, nostub=False, substs=None):
+        """Interpret local body `key` with argument values (substs: generic arguments of the call, as exported)."""
         stub = None if nostub else self.stubs.get(key)
         if stub is not None:
             return stub(self, key, args)
@@ -862,7 +868,33 @@ class Interp:
                 raise PathEnd("panic", "unbounded recursion in %s over nested/cyclic objects (stack exhaustion)" % sorted(rec)[0])
             raise self.unanalysable("call depth exceeded at %s" % key)
         fr = Frame(key, body)
+        fr.substs = dict(zip(body.get("generics") or [], substs or []))
         return self.exec_frame(fr, args)
+
+    def const_param(self, fr, name, ty):
+        """value of a const generic parameter of the running body: from the call's generic arguments, else from the
+        length of an array argument whose declared type mentions the parameter"""
+        v = getattr(fr, "substs", {}).get(name)
+        if v is None:
+            # a closure body shares the generic parameters of the function it is written in
+            for outer in reversed(self.frames):
+                if outer is not fr and fr.key.startswith(outer.key + "::{closure") and name in outer.substs:
+                    return self.const_param(outer, name, ty)
+        if isinstance(v, str) and re.fullmatch(r"-?[0-9]+(_?[iu](8|16|32|64|128|size))?", v.strip()):
+            return int(re.match(r"-?[0-9]+", v.strip()).group(0))
+        body = fr.body
+        for i in range(1, body["arg_count"] + 1):
+            lty = str(body["locals"][i].get("ty", ""))
+            if re.search(r";\s*%s\]" % re.escape(name), lty):
+                a = fr.locals[i].v
+                for _ in range(3):
+                    if isinstance(a, Ref):
+                        a = self.load(a)
+                if isinstance(a, Agg) and a.adt == "array":
+                    return len(a.fields)
+                if hasattr(a, "elems"):
+                    return len(a.elems)
+        raise self.unanalysable("const generic parameter %s of %s has no known value" % (name, fr.key))
 
     def call_closure(self, cl, args):
         if isinstance(cl, Ref):
@@ -887,6 +919,7 @@ class Interp:
             fr.locals[i + 1].v = a
         self.depth += 1
         self.stack.append(fr.key)
+        self.frames.append(fr)
         try:
             loops = self.prog.loops(fr.key) if fr.key in self.prog.bodies and self.havoc else {}
             bb = 0
@@ -972,6 +1005,7 @@ class Interp:
         finally:
             self.depth -= 1
             self.stack.pop()
+            self.frames.pop()
 
     def switch(self, v, t):
         targets = t["targets"]
@@ -1015,7 +1049,7 @@ class Interp:
                 m = self.models.local_override(cand)
                 if m is not None:
                     return m(self, f, argv)
-                return self.call(cand, argv)
+                return self.call(cand, argv, substs=(res.get("args") if cand == rpath and res.get("args") is not None else f.get("args")))
         m = self.models.lookup(f)
         if m is not None:
             return m(self, f, argv)
